@@ -44,7 +44,18 @@ def run_check(prop: str, tier: str, root: str, seed: int, write: bool = True, on
                 ctx.selftest["behaviour_preserving_rewrites"] = selftest.run_refactor_variants(prop, root)
             except Exception as e:
                 ctx.selftest = {"error": f"{type(e).__name__}: {e}"}
-        return ctx.finish(getattr(mod, "EXPLANATION", "static rule instances over the source"))
+        expl = getattr(mod, "EXPLANATION", "static rule instances over the source")
+        try:        # clauses added after the module's explanation was written (kept in one place: tools/claims.py)
+            import importlib.util as _ilu
+            sp = _ilu.spec_from_file_location("claims", os.path.join(os.path.dirname(os.path.dirname(os.path.abspath(__file__))), "tools", "claims.py"))
+            cm = _ilu.module_from_spec(sp)
+            sp.loader.exec_module(cm)
+            if prop in getattr(cm, "EXTRA", {}):
+                expl += " " + cm.EXTRA[prop] + " (T1) quantified tests and parameter use are cross-checked against the instances confirmed on the reference tree." \
+                    " All rules read the comparison normal form of bnpsa/normalize.py."
+        except Exception:
+            pass
+        return ctx.finish(expl)
     except Exception as e:
         print(f"ANALYSIS-ERROR property={prop} checker crashed: {type(e).__name__}: {e}")
         traceback.print_exc(limit=8, file=sys.stdout)
